@@ -118,7 +118,7 @@ def run_families(ctx, fams=None, tier=None, workers=6, part=""):
     import time
     for attempt in (1, 2, 3):
         # explicit work directory: a failed attempt must not leave it behind (run_tlc only hands it back on success)
-        wd = os.path.join(_tlc.WORK, "Families-%d-%d-a%d" % (os.getpid(), int(time.time() * 1000) % 10 ** 7, attempt))
+        wd = os.path.join(_tlc.WORK, "Families%s-%d-%d-a%d" % (part, os.getpid(), int(time.time() * 1000) % 10 ** 7, attempt))
         try:
             return ctx.tlc("Families", cfg="Families.%s.cfg" % tier, cfg_text=txt, workers=workers, timeout=1700,
                            extra_modules=["DiffOps.tla"], workdir=wd)
@@ -149,9 +149,12 @@ def run_deviation(ctx):
 def run_reassign_deviation(ctx):
     """Named deviation StaleCacheAfterAssign (an assignment keeps what was derived from the old parameters) must violate
     ReassignIsFresh (non-vacuity of the invariant of the Reassign part)."""
+    import os, time
     from .core import MachineryError
+    from . import tlc as _tlc
+    wd = os.path.join(_tlc.WORK, "FamiliesReStale-%d-%d" % (os.getpid(), int(time.time() * 1000) % 10 ** 7))    # may run concurrently
     res = ctx.tlc("Families", cfg="Families.reassign_stale.deviation.cfg", workers=2, timeout=900, extra_modules=["DiffOps.tla"],
-                  expect_violation=True)
+                  expect_violation=True, workdir=wd)
     if res.violated != "ReassignIsFresh":
         from . import tlc as _tlc
         _tlc.cleanup(res)
@@ -366,6 +369,56 @@ def call(f):
             return "value", v, [str(x.message) for x in w]
         except Exception as e:      # noqa: BLE001  (the kind of exception is never asserted)
             return "raise", e, [str(x.message) for x in w]
+
+
+# ---------------------------------------------------------------- Reassign part (one object, assignments one after another)
+def reassign_id(rc):
+    return "re:%s:%s" % (case_id(rc), "".join(str(u) for u in rc["order"]))
+
+
+def assign_value(case, name, scalar=False, one_element_array=False):
+    """value of the public attribute `name` in the configuration `case` (an emitted family case): ndarray for array-valued
+    parameters, python float for the parameters the docstring documents as scalars; scalar=True: python float for every
+    parameter that is a constant vector in this configuration."""
+    fam = case["fam"]
+    v = _param_values(case)[name]
+    if fam == "Lognormal" and name == "cov":
+        return np.array(v)
+    if (fam, name) in _SCALAR_ONLY:
+        return np.array([float(v[0])]) if one_element_array else float(v[0])
+    if scalar and case["scal"].get(name):
+        return float(v[0])
+    return np.array(v)
+
+
+def warm_up(dist, x, extra=()):
+    """Evaluate every public observable of the object once (results and refusals are ignored): whatever the object derives
+    lazily from its parameters is derived now."""
+    fs = [lambda: dist.logpdf(np.array(x)), lambda: dist.pdf(np.array(x)), lambda: dist.logd(np.array(x)),
+          lambda: dist.cdf(np.array(x)), lambda: dist.gradient(np.array(x)),
+          lambda: dist.sample(2, rng=np.random.RandomState(1)),
+          lambda: dist.dim, lambda: dist.geometry, lambda: dist.get_mutable_variables()]
+    for attr in ("compute_cov",):
+        fs.append(lambda a=attr: getattr(dist, a)())
+    for attr in ("sqrtprec", "sqrtprecTimesMean", "logdet", "rank", "prec", "cov", "sqrtcov") + tuple(extra):
+        fs.append(lambda a=attr: getattr(dist, a))
+    with warnings.catch_warnings():
+        warnings.simplefilter("ignore")
+        with np.errstate(all="ignore"), quiet():
+            for f in fs:
+                try:
+                    f()
+                except Exception:       # noqa: BLE001  (a refusal is not judged here)
+                    pass
+
+
+def apply_assignments(dist, steps):
+    """steps: [(attribute, value)].  Returns None, or the exception with which an assignment was refused."""
+    for name, value in steps:
+        st, e, _ = call(lambda: setattr(dist, name, value))
+        if st == "raise":
+            return e
+    return None
 
 
 def case_id(case):
